@@ -372,23 +372,24 @@ def _exact_cover(blocks, R, C, mode, cap):
         masks_of[b].add(mask)
     classes = {}
     cls = [classes.setdefault(frozenset(masks_of[b]), len(classes)) for b in range(N)]
-    Af = A.astype(np.float32)
     nodes = [0]
     sol = []
 
-    def rec(valid, uncovered):
+    def rec(live, uncovered):
+        # live: indices of the placements still compatible with the partial cover
         nodes[0] += 1
         if nodes[0] > cap:
             return None
         if not uncovered.any():
             return True
-        cnt = valid.astype(np.float32) @ Af
-        cnt[~uncovered] = np.inf
+        sub = A[live]
+        cnt = sub.sum(axis=0, dtype=np.int64)
+        cnt[~uncovered] = n_rows + 1
         col = int(np.argmin(cnt))
         if cnt[col] == 0:
             return False
         tried = set()
-        for p in np.flatnonzero(valid & (A[:, col] > 0)):
+        for p in live[sub[:, col] > 0]:
             b, mask = rows[p]
             if (cls[b], mask) in tried:
                 continue
@@ -396,7 +397,7 @@ def _exact_cover(blocks, R, C, mode, cap):
             cols = np.flatnonzero(A[p])
             left = uncovered.copy()
             left[cols] = False
-            res = rec(valid & ~A[:, cols].any(axis=1), left)
+            res = rec(live[~sub[:, cols].any(axis=1)], left)
             if res:
                 sol.append(info[p])
                 return True
@@ -409,7 +410,7 @@ def _exact_cover(blocks, R, C, mode, cap):
     old = sys.getrecursionlimit()
     sys.setrecursionlimit(max(old, 5000))
     try:
-        res = rec(np.ones(n_rows, bool), np.ones(nc + N, bool))
+        res = rec(np.arange(n_rows), np.ones(nc + N, bool))
     finally:
         sys.setrecursionlimit(old)
     return (res, sol[::-1]) if res else (res, None)
@@ -466,11 +467,11 @@ def instance(P, S0, ev):
     if out:
         return out
     # abstract tiling (rotations allowed, only the cells have to stay inside the grid); any tiling is a certificate
-    res, _ = _exact_cover(blocks, R, C, "home", cap=300)
+    res, _ = _exact_cover(blocks, R, C, "home", cap=500)
     if res:
         P.hit("tiling_certified_home_aligned")
     else:
-        res, _ = _exact_cover(blocks, R, C, "free", cap=4000)
+        res, _ = _exact_cover(blocks, R, C, "free", cap=30000)
         if res is None:
             res = _first_cell_search(blocks, R, C, "free", cap=150000)
         if res:
@@ -482,7 +483,7 @@ def instance(P, S0, ev):
     else:
         P.hit("tiling_certified")
     # playability through the action space (3x3 box inside the grid): an observation, never a verdict
-    play, _ = _exact_cover(blocks, R, C, "boxed", cap=1500)
+    play, _ = _exact_cover(blocks, R, C, "boxed", cap=30000)
     P.hit("playable_completion_exists" if play else ("playable_completion_undecided" if play is None else "no_playable_completion"))
     return out
 
@@ -511,7 +512,7 @@ def _pol_complete(ctx):
     if "fp_plan" not in ctx:
         blocks = np.asarray(st.blocks).astype(np.int64)
         R, C = np.asarray(st.grid).shape
-        res, sol = _exact_cover(blocks, R, C, "boxed", cap=3000)
+        res, sol = _exact_cover(blocks, R, C, "boxed", cap=30000)
         ctx["fp_plan"] = sol if res else []
     m = np.asarray(ctx["ts"].observation.action_mask)
     placed = np.asarray(st.placed_blocks)
